@@ -379,3 +379,20 @@ PROPS["C02"] = dict(
     assumptions=["the inner error of a failing Compute child is not part of the compared result (rayon leaves open which child's error is kept; the VM reports Compute.Exec either way)",
                  "real work-stealing interleavings are sampled (pool sizes x repetitions x jitter), not enumerated"],
 )
+
+
+def _c16_with_computed(rng, tier):
+    """C16's last clause: the set returned by check_and_compute must itself satisfy the one-mutation-per-slot rule"""
+    cases, oracles = gen_types.c16_cases(rng, tier)
+    kinds = [None, "dc", "cd", "cc", "dd_pred", "dd"]
+    for i in range(36 if tier == "quick" else 600):
+        sols, preds, pbytes = gen_check.c04_set(rng, kinds[i % len(kinds)])
+        base = gen_check.check_case("twopass", rng.random() < 0.5, sols, preds, pbytes, [])
+        cases.append(base)
+        oracles.append(f"o_perm {len(sols)} " + " ".join(map(str, range(len(sols)))) + " " + base)
+    return cases, oracles
+
+
+PROPS["C16"]["gen"] = _c16_with_computed
+PROPS["C16"]["modules"] = ["Essential.Props.C16", "Essential.Props.C16b"]
+PROPS["C16"]["rule"] += "; plus generated sets with declared / computed clashes (same and different predicates of one contract) run through the two-pass check: the returned set must have unique (contract, key) slots and be accepted by check_set (o_perm with the identity order)"
